@@ -458,7 +458,22 @@ async def x_second_manager(loop):
     return bad
 
 
-EXTRAS = {"C03": [x_two_servers, x_table_changed], "C02": [x_base_changed], "C10": [x_second_manager]}
+async def x_overlapping_sessions(loop):
+    """two sessions at once: what one of them sends is answered to IT, exactly once, and the other hears nothing of it"""
+    from props import c14
+
+    bad = []
+    for verb in ("RETR", "STOR"):
+        for when in ("plain", "a-has-listener"):
+            o = await c14._two_session_case(loop, verb, when)
+            if o["a_replies"] != [226] or o["a_follow"] != [257]:
+                bad.append("a session with no transfer sent ABOR while ANOTHER session's %s was under way: it got %r (want exactly one final reply, 226), then PWD -> %r" % (verb, o["a_replies"], o["a_follow"]))
+            if o["b_replies"] != [150, 226] or not o["b_ok"] or o["b_follow"] != [257]:
+                bad.append("a session in the middle of its %s, while ANOTHER session sent ABOR: it got %r (want the 150 mark and exactly one final reply, 226), data intact: %r, then PWD -> %r" % (verb, o["b_replies"], o["b_ok"], o["b_follow"]))
+    return bad
+
+
+EXTRAS = {"C03": [x_two_servers, x_table_changed], "C02": [x_base_changed], "C10": [x_second_manager], "C05": [x_overlapping_sessions]}
 
 
 def _extra_job(fn):
